@@ -12,7 +12,7 @@ Rec == ndJsonDeserialize(IOEnv.TRACE)
 
 ShapeOK(m) ==
   /\ m.tid \in TidClass /\ m.fixed \in FixedClass /\ m.tail \in TailClass /\ m.inner \in InnerClass
-  /\ m.opaque \in BOOLEAN /\ m.tlvkind \in BOOLEAN
+  /\ m.opaque \in BOOLEAN /\ m.tlvkind \in BOOLEAN /\ m.size \in SizeClass
   /\ \A i \in 1..Len(m.recs) : WellFormedRec(m.recs[i], m.nk)
 
 TraceInit == l = 1
@@ -22,7 +22,7 @@ TCase ==
   /\ Rec[l].ev = "case"
   /\ LET e == Rec[l] IN
        /\ ShapeOK(e.m)
-       /\ Conforms(e.m, e.level, e.obs, e.exp, e.eq, e.rt, e.over, e.cexp, e.canon)
+       /\ Conforms(e.m, e.level, e.obs, e.exp, e.eq, e.rt, e.over, e.cexp, e.canon, e.n, e.unit, e.total)
   /\ l' = l + 1
 
 TraceNext == TCase
